@@ -45,6 +45,7 @@ ASSUMPTIONS = [
 REQUIRED = ["roundtrips", "src_text", "src_bytes", "src_path", "offset_0", "offset_big",
             "rounding_tie_values", "comments_compared", "audit_file_opens", "rewrites_same_object",
             "trees_with_int64_ids", "same_path_rewritten_then_read",
+            "rejected_reads_before_roundtrip",
             "tap_to_swc", "tap_parse_swc", "tap_reset_index_"]
 FLOOR = {"quick": 500, "thorough": 10000}
 SHARDS = {"quick": 8, "thorough": 16}
@@ -152,6 +153,19 @@ def _exec(ctx, case, tmp):
             text = tree.to_swc(**kw)
             if not isinstance(text, str):
                 return ctx.violation("write-api", f"{what}: to_swc() returned {type(text)}", case)
+            if case.get("rejected_read_first") and w_i == 0:
+                # "try the extended format, fall back to plain swc": a read of the same text that
+                # asks for columns it does not have is rejected; the plain read must not care
+                try:
+                    if case["vseed"] % 2:
+                        Tree.from_eswc(io.StringIO(text), extra_cols=["level", "mode"])
+                    else:
+                        su.read_swc(io.StringIO(text), extra_cols=["level"])
+                    return ctx.violation("missing-columns-accepted",
+                                         f"{what}: a read asking for extra columns the text does "
+                                         f"not have returned instead of raising", case)
+                except Exception:
+                    ctx.count("rejected_reads_before_roundtrip")
             if kind == "text":
                 t2 = Tree.from_swc(io.StringIO(text))
                 df, cm = su.read_swc(io.StringIO(text))
@@ -281,6 +295,7 @@ def run(ctx):
                     "tsource": str(rng.choice(["", "", "/data/neuron.swc"])),
                     "wide_ids": bool(rng.random() < 0.35),
                     "rewrite_same_path": bool(rng.random() < 0.5),
+                    "rejected_read_first": bool(rng.random() < 0.3),
                     "writes": writes}
             ctx.case(case, nontrivial=rc["n"] >= 2 and rc["shape"] != "single",
                      klass=f"{case['vclass']}/{rc['shape']}")
